@@ -234,15 +234,57 @@ pub fn run(ctx: &Ctx) -> i32 {
             }
         });
     });
+    let mut ev = ev;
+    // containers that did not come from a builder call of the harness: Default (an empty map / set like any other) and the
+    // conversions between the three container types - probed with the empty string, every single byte and random strings
+    {
+        let mut rng = Rng::new(ctx.seed, 0xDEFA);
+        let r = guard(|| -> Result<u64, String> {
+            let m: Map<Vec<u8>> = Map::default();
+            let s: Set<Vec<u8>> = Set::default();
+            let mut probes: Vec<Vec<u8>> = vec![vec![]];
+            probes.extend((0..=255u8).map(|b| vec![b]));
+            for _ in 0..200 {
+                let l = rng.usize(6);
+                probes.push((0..l).map(|_| rng.next() as u8).collect());
+            }
+            let fm: Fst<Vec<u8>> = Map::<Vec<u8>>::default().into_fst();
+            let fs: Fst<Vec<u8>> = Set::<Vec<u8>>::default().into_fst();
+            let m2: Map<Vec<u8>> = Map::from(Set::<Vec<u8>>::default().into_fst());
+            let s2: Set<Vec<u8>> = Set::from(Map::<Vec<u8>>::default().into_fst());
+            for p in &probes {
+                if m.get(p).is_some() || m.contains_key(p) || m2.get(p).is_some() || m2.contains_key(p) {
+                    return Err(format!("Map::default() reports the key {} although it is empty", crate::json::show_bytes(p)));
+                }
+                if s.contains(p) || s2.contains(p) {
+                    return Err(format!("Set::default() reports the key {} although it is empty", crate::json::show_bytes(p)));
+                }
+                if fm.get(p).is_some() || fm.contains_key(p) || fs.get(p).is_some() || fs.contains_key(p) || m.as_fst().contains_key(p) || s.as_fst().contains_key(p) {
+                    return Err(format!("the raw FST inside a Default container reports the key {}", crate::json::show_bytes(p)));
+                }
+            }
+            Ok(probes.len() as u64 * 12)
+        });
+        match r {
+            Ok(Ok(n)) => {
+                ev.evaluations += n;
+                ev.distinct_extra += n;
+                ev.add("probe:default-containers", n);
+            }
+            Ok(Err(e)) => ev.violate("lookup-mismatch", e, J::s("Default containers")),
+            Err(p) => ev.violate("lookup-panic", format!("Default containers: {}", p), J::s("Default containers")),
+        }
+    }
     finish(
         ctx,
         ev,
         Spec {
             level: "exploration",
-            rule: "one evaluation = one probe string looked up through raw::Fst<&[u8]>::get/contains_key, raw::Fst<Vec>::get, Map::get/contains_key and Set::contains and compared with the model; probes per FST: every key, every proper prefix, one-byte extensions {00,ff,'e',80,'G',01,random} of every prefix, all 256 continuations at the root and at wide nodes, +-1/random substitutions at every position (small FSTs) or sampled positions, the empty string, 100 random strings; FSTs: the shared case pool (quick: every 2nd exhaustive/random case); non-trivial = every probe; distinct = distinct (FST content, probe)",
+            rule: "one evaluation = one probe string looked up through raw::Fst<&[u8]>::get/contains_key, raw::Fst<Vec>::get, Map::get/contains_key and Set::contains and compared with the model; probes per FST: every key, every proper prefix, one-byte extensions {00,ff,'e',80,'G',01,random} of every prefix, all 256 continuations at the root and at wide nodes, +-1/random substitutions at every position (small FSTs) or sampled positions, the empty string, 100 random strings; the containers made by Default and the From/into_fst conversions between Map, Set and raw::Fst are probed with the empty string, every single byte and random strings; FSTs: the shared case pool (quick: every 2nd exhaustive/random case); non-trivial = every probe; distinct = distinct (FST content, probe)",
             assumptions: vec!["probe classes (probe:*) are derived by walking the independently decoded node graph".into()],
             floors: vec![
                 ("probe:hit", 1000),
+                ("probe:default-containers", 1000),
                 ("probe:hit:empty-key", 100),
                 ("probe:miss:empty-key", 100),
                 ("probe:miss:prefix-not-final", 1000),
